@@ -69,7 +69,7 @@ type startRes struct {
 	failInfo    opInfo
 	ctxErrAtEnd error
 	capped      bool
-	stages      []string // stage of every released operation (index j-1)
+	stages      []string    // stage of every released operation (index j-1)
 	migCommits  map[int]int // applied commits by the migration that was executing (-1: the runner)
 }
 
